@@ -307,7 +307,14 @@ def io_evaluator(m, extra=None):
     fns['str'] = lambda o: o.text if isinstance(o, Obj) and o.has('text') \
         else str(o)
     fns.update(extra or {})
-    ev = Evaluator(m, functions=fns, max_steps=100000)
+    own, bases = {}, {}
+    for name, node in m.classes.items():
+        own[name] = {st.name: st for st in node.body
+                     if isinstance(st, ast.FunctionDef)}
+        bases[name] = [ast.unparse(b).split('.')[-1] for b in node.bases]
+    ev = Evaluator(m, functions=fns, max_steps=100000, class_methods=own,
+                   class_own=own, class_bases=bases)
+    ev.instantiate_classes = bool(own)
     ev.evaluate_raises = True
     return ev
 
@@ -452,114 +459,163 @@ def r182(report, m):
     faults = ('none', 'none, nothing mapped') + tuple(
         s_ + ' fails' for s_ in steps) + tuple(
         s_ + ' interrupted' for s_ in steps)
+    def new_evaluator():
+        hooks = {}
+        ev = io_evaluator(m, {
+            'sourcemap.write': lambda *a, **k: hooks['sourcemap.write'](
+                *a, **k),
+            'sourcemap.write_sourcemap': lambda *a, **k: hooks[
+                'sourcemap.write_sourcemap'](*a, **k)})
+        ev.is_subclass = lambda c, b_: b_ == 'Node' and c == \
+            'ES5Program' or c == b_
+        return ev, hooks
+
+    def applicable(out_kind, map_kind, fault0):
+        fault = fault0.replace(' interrupted', ' fails')
+        if fault == 'output factory fails' and out_kind != 'factory':
+            return False
+        if fault == 'map factory fails' and map_kind != 'factory':
+            return False
+        if fault == 'write_sourcemap fails' and map_kind == 'none':
+            return False
+        return True
+
+    def scenario(ev, hooks, out_kind, map_kind, fault0):
+        # expectations depend on the step only, not on the kind
+        fault = fault0.replace(' interrupted', ' fails')
+        unmapped = fault == 'none, nothing mapped'
+        if unmapped:
+            fault = 'none'
+        out_rec, map_rec = Stream('out.js'), Stream('out.js.map')
+        out_obj, map_obj = stream_obj(out_rec), stream_obj(map_rec)
+        log = []
+
+        def out_factory(fault=fault0, o=out_obj):
+            boom('output factory', fault)
+            return o
+
+        def map_factory(fault=fault0, o=map_obj):
+            boom('map factory', fault)
+            return o
+        output = ('pyfunc', out_factory) if out_kind == 'factory' \
+            else out_obj
+        if map_kind == 'none':
+            smap = None
+        elif map_kind == 'same':
+            smap = output
+        elif map_kind == 'factory':
+            smap = ('pyfunc', map_factory)
+        else:
+            smap = map_obj
+        chunks = [('chunk', 1), ('chunk', 2)]
+
+        def unparser(node, fault=fault0):
+            boom('unparser', fault)
+            return list(chunks)
+
+        def sm_write(cs, stream, normalize=True, fault=fault0, log=log,
+                     unmapped=unmapped):
+            log.append(('write', list(cs), stream))
+            boom('sourcemap.write', fault)
+            if unmapped:
+                # what sourcemap.write yields for a text without any
+                # positioned fragment (an empty or comment-only
+                # program): the map still has to be written
+                return ([[]], [], [])
+            return (['m'], ['s'], ['n'])
+
+        def sm_write_map(mappings, sources, names, o, s_, fault=fault0,
+                         log=log, **kw):
+            log.append(('write_sourcemap', mappings, sources, names, o,
+                        s_))
+            boom('write_sourcemap', fault)
+        node = Obj('ES5Program')
+        hooks['sourcemap.write'] = sm_write
+        hooks['sourcemap.write_sourcemap'] = sm_write_map
+        out = outcome_of(lambda: ev.call(
+            write, [('pyfunc', unparser), node, output, smap])[0])
+        label = 'output %s, map %s, %s' % (out_kind, map_kind, fault0)
+        problems = []
+        opened_out = out_kind == 'factory' and fault not in (
+            'unparser fails', 'output factory fails')
+        map_reached = fault in ('none', 'write_sourcemap fails',
+                                'map factory fails')
+        opened_map = map_kind == 'factory' and map_reached and \
+            fault != 'map factory fails'
+        if out_rec.closes != (1 if opened_out else 0):
+            problems.append('the output stream is closed %d time(s), '
+                            'expected %d' % (out_rec.closes,
+                                             1 if opened_out else 0))
+        if map_rec.closes != (1 if opened_map else 0):
+            problems.append('the map stream is closed %d time(s), '
+                            'expected %d' % (map_rec.closes,
+                                             1 if opened_map else 0))
+        if fault == 'none':
+            if out[0] != 'returns':
+                problems.append('raises %r' % (out,))
+        elif out[0] != 'raises' or out[1] != (
+                'Interrupt' if fault0.endswith('interrupted')
+                else 'Fault'):
+            problems.append('the failure does not propagate (%r)'
+                            % (out,))
+        if fault not in ('unparser fails', 'output factory fails'):
+            w = [x for x in log if x[0] == 'write']
+            if len(w) != 1 or w[0][1] != chunks or w[0][2] is not \
+                    out_obj:
+                problems.append('sourcemap.write does not receive the '
+                                'printer output and the output stream '
+                                'once (%r)' % (w,))
+        if fault in ('none', 'write_sourcemap fails') and \
+                map_kind != 'none':
+            w = [x for x in log if x[0] == 'write_sourcemap']
+            want_map = out_obj if map_kind == 'same' else map_obj
+            if len(w) != 1 or w[0][1:4] != ((['m'], ['s'], ['n'])
+                                            if not unmapped else
+                                            ([[]], [], [])) or \
+                    w[0][4] is not out_obj or w[0][5] is not want_map:
+                problems.append('write_sourcemap does not receive the '
+                                'mappings and the two streams (%r)'
+                                % (w,))
+        return label, problems, (out_rec, map_rec, opened_out, opened_map)
+
     for out_kind, map_kind in arrangements:
         for fault0 in faults:
-            # expectations depend on the step only, not on the kind
-            fault = fault0.replace(' interrupted', ' fails')
-            unmapped = fault == 'none, nothing mapped'
-            if unmapped:
-                fault = 'none'
-            if fault == 'output factory fails' and out_kind != 'factory':
+            if not applicable(out_kind, map_kind, fault0):
                 continue
-            if fault == 'map factory fails' and map_kind != 'factory':
-                continue
-            if fault == 'write_sourcemap fails' and map_kind == 'none':
-                continue
-            out_rec, map_rec = Stream('out.js'), Stream('out.js.map')
-            out_obj, map_obj = stream_obj(out_rec), stream_obj(map_rec)
-            log = []
-
-            def out_factory(fault=fault0, o=out_obj):
-                boom('output factory', fault)
-                return o
-
-            def map_factory(fault=fault0, o=map_obj):
-                boom('map factory', fault)
-                return o
-            output = ('pyfunc', out_factory) if out_kind == 'factory' \
-                else out_obj
-            if map_kind == 'none':
-                smap = None
-            elif map_kind == 'same':
-                smap = output
-            elif map_kind == 'factory':
-                smap = ('pyfunc', map_factory)
-            else:
-                smap = map_obj
-            chunks = [('chunk', 1), ('chunk', 2)]
-
-            def unparser(node, fault=fault0):
-                boom('unparser', fault)
-                return list(chunks)
-
-            def sm_write(cs, stream, normalize=True, fault=fault0, log=log,
-                         unmapped=unmapped):
-                log.append(('write', list(cs), stream))
-                boom('sourcemap.write', fault)
-                if unmapped:
-                    # what sourcemap.write yields for a text without any
-                    # positioned fragment (an empty or comment-only
-                    # program): the map still has to be written
-                    return ([[]], [], [])
-                return (['m'], ['s'], ['n'])
-
-            def sm_write_map(mappings, sources, names, o, s_, fault=fault0,
-                             log=log, **kw):
-                log.append(('write_sourcemap', mappings, sources, names, o,
-                            s_))
-                boom('write_sourcemap', fault)
-            node = Obj('ES5Program')
-            ev = io_evaluator(m, {'sourcemap.write': sm_write,
-                                  'sourcemap.write_sourcemap': sm_write_map})
-            ev.is_subclass = lambda c, b_: b_ == 'Node' and c == \
-                'ES5Program' or c == b_
-            out = outcome_of(lambda: ev.call(
-                write, [('pyfunc', unparser), node, output, smap])[0])
-            label = 'output %s, map %s, %s' % (out_kind, map_kind, fault0)
-            problems = []
-            opened_out = out_kind == 'factory' and fault not in (
-                'unparser fails', 'output factory fails')
-            map_reached = fault in ('none', 'write_sourcemap fails',
-                                    'map factory fails')
-            opened_map = map_kind == 'factory' and map_reached and \
-                fault != 'map factory fails'
-            if out_rec.closes != (1 if opened_out else 0):
-                problems.append('the output stream is closed %d time(s), '
-                                'expected %d' % (out_rec.closes,
-                                                 1 if opened_out else 0))
-            if map_rec.closes != (1 if opened_map else 0):
-                problems.append('the map stream is closed %d time(s), '
-                                'expected %d' % (map_rec.closes,
-                                                 1 if opened_map else 0))
-            if fault == 'none':
-                if out[0] != 'returns':
-                    problems.append('raises %r' % (out,))
-            elif out[0] != 'raises' or out[1] != (
-                    'Interrupt' if fault0.endswith('interrupted')
-                    else 'Fault'):
-                problems.append('the failure does not propagate (%r)'
-                                % (out,))
-            if fault not in ('unparser fails', 'output factory fails'):
-                w = [x for x in log if x[0] == 'write']
-                if len(w) != 1 or w[0][1] != chunks or w[0][2] is not \
-                        out_obj:
-                    problems.append('sourcemap.write does not receive the '
-                                    'printer output and the output stream '
-                                    'once (%r)' % (w,))
-            if fault in ('none', 'write_sourcemap fails') and \
-                    map_kind != 'none':
-                w = [x for x in log if x[0] == 'write_sourcemap']
-                want_map = out_obj if map_kind == 'same' else map_obj
-                if len(w) != 1 or w[0][1:4] != ((['m'], ['s'], ['n'])
-                                                if not unmapped else
-                                                ([[]], [], [])) or \
-                        w[0][4] is not out_obj or w[0][5] is not want_map:
-                    problems.append('write_sourcemap does not receive the '
-                                    'mappings and the two streams (%r)'
-                                    % (w,))
+            ev, hooks = new_evaluator()
+            label, problems, _ = scenario(ev, hooks, out_kind, map_kind,
+                                          fault0)
             r2.check(not problems, 'write: ' + label,
                      'io.write(%s)' % label, '; '.join(problems),
                      where='io.py:write')
+    # histories: a call that follows an earlier call (successful or failed)
+    # in the same process behaves like a first call, and leaves the streams
+    # of the earlier call alone
+    firsts = [('factory', 'factory', f) for f in (
+        'none', 'write_sourcemap fails', 'map factory fails',
+        'sourcemap.write fails', 'unparser fails',
+        'write_sourcemap interrupted')] + [
+        ('factory', 'same', 'none'), ('open', 'factory', 'none'),
+        ('factory', 'none', 'sourcemap.write fails')]
+    seconds = [('factory', 'factory', 'none'), ('open', 'open', 'none'),
+               ('factory', 'factory', 'write_sourcemap fails')]
+    for first in firsts:
+        for second in seconds:
+            ev, hooks = new_evaluator()
+            label1, problems1, recs1 = scenario(ev, hooks, *first)
+            before = (recs1[0].closes, recs1[1].closes)
+            label2, problems2, recs2 = scenario(ev, hooks, *second)
+            after = (recs1[0].closes, recs1[1].closes)
+            problems = list(problems2)
+            if after != before:
+                problems.append(
+                    'the streams of the earlier call were closed again '
+                    '(output %d -> %d, map %d -> %d time(s))' % (
+                        before[0], after[0], before[1], after[1]))
+            r2.check(not problems, 'write after write: (%s) then (%s)' % (
+                label1, label2), 'io.write(%s); io.write(%s)' % (
+                label1, label2), 'the second call: ' + '; '.join(problems),
+                where='io.py:write')
     # nodes that are not Nodes are refused before anything is opened
     out_rec = Stream('out.js')
     opened = []
@@ -573,6 +629,43 @@ def r182(report, m):
              'before the output is opened (%r)' % (out,),
              where='io.py:write')
     return r2
+
+
+def _per_call_capture(m, key):
+    """the write site `key` (module:func:text) is inside a function nested
+    in a *public module-level function* whose every activation creates the
+    captured object anew (an assignment of a fresh display or constructor
+    call in the outer function body, outside any loop) and which does not
+    return or store the nested function"""
+    func = key.split(':')[1]
+    for outer in m.functions.values():
+        inner = [st for st in outer.body if isinstance(
+            st, ast.FunctionDef) and st.name == func]
+        if not inner:
+            continue
+        root = key.split(':', 2)[2].split('.')[0].split('[')[0]
+        fresh = any(
+            isinstance(st, ast.Assign) and isinstance(
+                st.value, (ast.List, ast.Dict, ast.Set)) and any(
+                isinstance(t, ast.Name) and t.id == root
+                for t in st.targets) for st in outer.body)
+        escapes = False
+        for n in ast.walk(outer):
+            if isinstance(n, ast.Return) and n.value is not None and any(
+                    isinstance(x, ast.Name) and x.id == func
+                    for x in ast.walk(n.value)):
+                escapes = True
+            if isinstance(n, (ast.Assign, ast.AugAssign)) and any(
+                    isinstance(x, ast.Name) and x.id == func
+                    for x in ast.walk(n.value)):
+                escapes = True
+            if isinstance(n, ast.Call) and any(
+                    isinstance(x, ast.Name) and x.id == func
+                    for a in list(n.args) + [k.value for k in n.keywords]
+                    for x in ast.walk(a)):
+                escapes = True
+        return fresh and not escapes
+    return False
 
 
 def run(report, index, tier):
@@ -590,6 +683,31 @@ def run(report, index, tier):
         'first close() that itself raises')
     r183(report, index)
     r184(report, index)
+    # R18.5: the helpers keep nothing between calls (the premise under
+    # which the per-call tables above speak for every later call too)
+    from .c15 import persistent_state_writes
+    r5 = report.rule('R18.5', 'io.py writes no module-level, class-level, '
+                     'captured or default-argument state: a call cannot '
+                     'leak streams of, or depend on, an earlier call',
+                     floor=2)
+    found, nsites = persistent_state_writes([m])
+    report.count('R18.5: write sites of io.py', nsites)
+    closures_ok = {}
+    for key, construct, msg, where in found:
+        # the per-call closures of write() (closer list captured by
+        # get_stream / cleanup) live and die with one activation of write:
+        # the captured object is created by the same call that uses it
+        if 'captured by' in msg and any(
+                isinstance(st, ast.FunctionDef) for st in ast.walk(
+                    need_function(m, 'write'))) and _per_call_capture(
+                        m, key):
+            closures_ok[key] = True
+            r5.ok(construct, 'captured object is created per call of the '
+                  'public function')
+            continue
+        r5.fail(key, construct, msg, where=where)
+    for _ in range(max(0, nsites - len(found))):
+        r5.ok('write site', 'local / per-call')
     report.not_decided.append(
         'equality of the written text with the printer output and the '
         'content of the (inline) source map (string-valued runtime data); '
